@@ -544,6 +544,15 @@ func (s *sessRun) request(rng *mrand.Rand, q int) {
 	r := httptest.NewRequest("GET", scheme+"://app.test/", nil)
 	s.expireInBrowser()
 	s.jar.addTo(r)
+	if rng.Intn(4) == 0 {
+		// cookies the middleware never set, under names that look like its chunk cookies (a hostile or broken client): they are
+		// not session content, and whatever the response does about them stays within the limits of every other line
+		for _, n := range [][]string{{"_oidc_raczylo_a_" + strings.Repeat("0", 4200)}, {"_oidc_raczylo_r_+7", "_oidc_raczylo_a_007"}, {"_oidc_raczylo_r_" + strings.Repeat("0", 3000) + "1", "_oidc_raczylo_a_-0"},
+			{"_oidc_raczylo_a_99999999999999999999999", "_oidc_raczylo_m_0", "_oidc_raczylo_a_1e3"}}[rng.Intn(4)] {
+			r.AddCookie(&http.Cookie{Name: n, Value: "x"})
+		}
+		T.stat("session.requests-with-lookalike-cookies")
+	}
 	sd, err := s.sm.GetSession(r)
 	if err != nil {
 		T.oracle("C17", "GetSession failed on a jar of the deployment's own cookies", M{"err": err.Error()}, s.replay())
